@@ -23,6 +23,13 @@ impl Clone for Value {
         ensures r == *self,
     { unimplemented!() }
 }
+// the `is_<kind>` predicates of src/value/value.rs (one-line `matches!`)
+impl Value {
+    pub fn is_null(&self) -> (r: bool) ensures r == (*self is Null) { matches!(self, Value::Null) }
+    pub fn is_boolean(&self) -> (r: bool) ensures r == (*self is Boolean) { matches!(self, Value::Boolean(_)) }
+    pub fn is_integer(&self) -> (r: bool) ensures r == (*self is Integer) { matches!(self, Value::Integer(_)) }
+    pub fn is_bytes(&self) -> (r: bool) ensures r == (*self is Bytes) { matches!(self, Value::Bytes(_)) }
+}
 
 impl Str {
     #[verifier::external_body]
